@@ -139,7 +139,9 @@ var keyBearing = map[string]bool{
 }
 
 func c14Check(c c14Case) (fs []rep.Finding) {
-	raw := []byte(c.Script)
+	// the queries run on a private copy (with spare capacity behind it): a query that writes
+	// into the script must not change the case itself, or the re-execution would judge another script
+	raw := append(make([]byte, 0, len(c.Script)+8), c.Script...)
 	keep := append([]byte(nil), raw...)
 	s := bscript.NewFromBytes(raw)
 	var typ string
